@@ -296,7 +296,10 @@ Section NodeOk.
             (negb (match (if kind_eqb (kind_of cal) KIdent then Some (text_of cal) else None) with
                    | Some n => existsb (str_eqb n) TABLE_FUNCS | None => false end) ||
              match find (fun c => kind_eqb (kind_of c) KArgs) (rev cs) with
-             | Some a => aslist_ok (children a) && (table_eq (children a) || existsb is_comment_node (children a))
+             | Some a => aslist_ok (children a) &&
+                         (table_eq (children a) || existsb is_comment_node (children a) ||
+                          existsb (fun c => kind_eqb (kind_of c) KSpread)
+                                  (filter is_arg (take_until_rparen_t (skip_until_t KLeftParen (children a)))))
              | None => true
              end) &&
             str_eqb (tsigl cs) (tsig cal ++ match find (fun c => kind_eqb (kind_of c) KArgs) (rev cs) with Some a => tsig a | None => [] end)
